@@ -136,6 +136,11 @@ func (db *DB) Start(initCheckpoints []recovery.CheckpointHandle) error {
 	db.sstables = latestCP.Levels
 	db.seqNum = latestCP.Levels.LatestSeqNum
 
+	// The database may be reopened in the directory the checkpoint was written
+	// to (a redeployed operator). Numbering new tables from zero again would
+	// overwrite table files that the checkpoint still references.
+	db.tableWriter.SkipPast(db.sstables)
+
 	// Start a new writer that doesn't write to a file yet.
 	db.wal = wal.NewWriter(db.fs, latestCP.NextWALID(), db.maxWALSize)
 
